@@ -408,7 +408,7 @@ pub fn run(tier: Tier) -> i32 {
     install_logger(log::LevelFilter::Trace);
     let pre = preflight();
     let seed = ctx.seed;
-    let per = tier.n(3000, 32_000);
+    let per = tier.n(3000, 100_000);
     let mut tally = ctx.par(32, |s| shard(seed, s, per));
     scanner_control(&mut tally);
     if let Err(e) = &pre {
